@@ -150,7 +150,12 @@ struct Array {
 
     void operator+=(Type_T &&item) {
         if (Size() == Capacity()) {
+#ifdef HANIAMMAR_QENTEM_ENGINE_VERIF
+            // Verification hook: exact-fit growth, so the end of the block is the logical end of the array.
+            resize(Capacity() + SizeT{1});
+#else
             resize((Capacity() | (Capacity() == 0)) * SizeT{2});
+#endif
         }
 
         Memory::Initialize((Storage() + Size()), Memory::Move(item));
@@ -159,7 +164,12 @@ struct Array {
 
     inline void operator+=(const Type_T &item) {
         if (Size() == Capacity()) {
+#ifdef HANIAMMAR_QENTEM_ENGINE_VERIF
+            // Verification hook: exact-fit growth, so the end of the block is the logical end of the array.
+            resize(Capacity() + SizeT{1});
+#else
             resize((Capacity() | (Capacity() == 0)) * SizeT{2});
+#endif
         }
 
         Memory::Initialize((Storage() + Size()), item);
